@@ -186,11 +186,17 @@ struct MirEmitter {
     sigs = &all; called.clear(); icalled.clear(); protos.clear(); lrefs.clear(); uses_ext = false; extn_sizes.clear(); data_used.clear();
     std::set<std::string> defined; for (auto &f : m.at("funcs").a) defined.insert(f.gets("name"));
     std::string funcs_txt; std::vector<std::pair<std::string, std::vector<std::string>>> all_lrefs;
-    std::vector<std::string> ftxt;
-    for (auto &f : m.at("funcs").a) { lrefs.clear(); std::string t = func(f); for (auto &l : lrefs) { bool diff = l.first.compare(0, 3, "td_") == 0; std::string sfx = diff ? ", " + l.second[0] : std::string(); t += l.first + ":\tlref " + l.second[0] + sfx + "\n"; for (size_t i = 1; i < l.second.size(); i++) t += "\tlref " + l.second[i] + sfx + "\n"; all_lrefs.push_back(l); } ftxt.push_back(t); }
+    std::vector<std::string> ftxt; std::vector<std::set<std::string>> fcalls;
+    for (auto &f : m.at("funcs").a) { lrefs.clear(); std::string t = func(f);
+      { std::set<std::string> mine; walk(f.at("body"), [&](const Json &st) { if (st[0].s == "call") mine.insert(st[2].s); }); fcalls.push_back(mine); } for (auto &l : lrefs) { bool diff = l.first.compare(0, 3, "td_") == 0; std::string sfx = diff ? ", " + l.second[0] : std::string(); t += l.first + ":\tlref " + l.second[0] + sfx + "\n"; for (size_t i = 1; i < l.second.size(); i++) t += "\tlref " + l.second[i] + sfx + "\n"; all_lrefs.push_back(l); } ftxt.push_back(t); }
     std::string r = m.gets("name") + ":\tmodule\n";
     bool fwd_first = m.geti("fwd_first", 0) != 0;  // declaration order forward -> export -> definition
-    if (fwd_first) for (auto &f : m.at("funcs").a) if (called.count(f.gets("name")) || icalled.count(f.gets("name"))) r += "\tforward " + f.gets("name") + "\n";
+    bool rev = m.geti("rev", 0) != 0;               // functions are defined in reverse order: a callee defined before its caller is referenced directly
+    size_t nf = m.at("funcs").size(); std::vector<size_t> order; for (size_t i = 0; i < nf; i++) order.push_back(rev ? nf - 1 - i : i);
+    std::set<std::string> need_fwd(icalled.begin(), icalled.end());   // ref data items precede the functions
+    { std::set<std::string> defined_so_far;
+      for (size_t oi : order) { const std::string &me_name = m.at("funcs")[oi].gets("name"); for (auto &c : fcalls[oi]) if (defined.count(c) && !defined_so_far.count(c)) need_fwd.insert(c); defined_so_far.insert(me_name); } }
+    if (fwd_first) for (auto &f : m.at("funcs").a) if (need_fwd.count(f.gets("name"))) r += "\tforward " + f.gets("name") + "\n";
     for (auto &f : m.at("funcs").a) if (f.geti("exp", 1)) r += "\texport " + f.gets("name") + "\n";
     std::set<std::string> own_data;
     if (const Json *dj = m.find("data")) for (auto &d : dj->a) { own_data.insert(d.gets("name")); if (d.geti("exp", 1)) r += "\texport " + d.gets("name") + "\n"; }
@@ -199,14 +205,14 @@ struct MirEmitter {
     if (uses_ext) imports.insert("ext");
     if (!extn_sizes.empty()) imports.insert("extn");
     for (auto &i : imports) r += "\timport " + i + "\n";
-    if (!fwd_first) for (auto &f : m.at("funcs").a) if (called.count(f.gets("name")) || icalled.count(f.gets("name"))) r += "\tforward " + f.gets("name") + "\n";
+    if (!fwd_first) for (auto &f : m.at("funcs").a) if (need_fwd.count(f.gets("name"))) r += "\tforward " + f.gets("name") + "\n";
     for (auto &l : all_lrefs) r += "\tforward " + l.first + "\n";
     for (auto &p : protos) { r += proto_name(p.first, p.second) + ":\tproto i64"; for (int i = 0; i < p.first; i++) r += S(", i64:a%d", i); for (int i = 0; i < p.second; i++) r += S(", d:d%d", i); r += "\n"; }
     if (uses_ext) r += "p_ext:\tproto i64, i64:t, i64:v\n";
     for (int n : extn_sizes) { r += S("p_extn_%d:\tproto i64, i64:n", n); for (int i = 1; i <= n; i++) r += S(", i64:a%d", i); r += "\n"; }
     for (auto &c : icalled) r += "r_" + c + ":\tref " + c + ", 0\n";
     if (const Json *dj = m.find("data")) for (auto &d : dj->a) r += d.gets("name") + ":\ti64 " + std::to_string((long long) d.geti("val")) + "\n";
-    for (auto &t : ftxt) r += t;
+    for (size_t oi : order) r += ftxt[oi];
     r += "\tendmodule\n";
     return r;
   }
